@@ -11,7 +11,7 @@ func init() {
 			RangeKeys: 1, FlushBeforeIngest: true})
 		add(Profile{Name: "C45", W: map[string]int{"write": 50, "ingest": 5, "maint": 12, "scanint": 18, "snap": 6, "close": 3},
 			RangeKeys: 1, MaxSnaps: 2})
-		add(Profile{Name: "C47", W: map[string]int{"write": 45, "ingest": 6, "excise": 2, "maint": 12, "snap": 6, "viewiter": 8, "viewop": 8, "batchnew": 4, "batchop": 6, "close": 6, "efos": 3},
+		add(Profile{Name: "C47", W: map[string]int{"write": 45, "ingest": 6, "excise": 2, "maint": 12, "snap": 6, "viewiter": 8, "viewop": 8, "batchnew": 4, "batchop": 6, "close": 6, "efos": 3, "setopts": 6, "setbounds": 3, "clone": 3},
 			RangeKeys: 1, MaxSnaps: 2, MaxIters: 3, IterCls: "view"})
 		add(Profile{Name: "C44", W: map[string]int{"write": 50, "ingest": 6, "maint": 18, "snap": 6, "viewiter": 6, "close": 4, "get": 10, "scan": 5},
 			ScanLatest: true, GetLatest: 3, ReadSnaps: true, ReadIters: true, RangeKeys: 1, MaxSnaps: 2, MaxIters: 2, IterCls: "view"})
